@@ -24,7 +24,7 @@ OVERRIDE_CHECKS = {'C05/a': ['C05'], 'C07/b': ['C05', 'C07'], 'C10/b': ['C10', '
 def ids():
     out = []
     for i in range(1, 21):
-        for x in 'abcdefghij':
+        for x in 'abcdefghijkl':
             out.append('C%02d/%s' % (i, x))
     return out
 
@@ -40,7 +40,31 @@ def source_dir(pid, x):
         return os.path.join('/tmp/seeded3', pid, {'e': 'a', 'f': 'b'}[x])
     if x in 'gh':
         return os.path.join('/tmp/seeded4', pid, {'g': 'a', 'h': 'b'}[x])
-    return os.path.join('/tmp/seeded5', pid, {'i': 'a', 'j': 'b'}[x])
+    if x in 'ij':
+        return os.path.join('/tmp/seeded5', pid, {'i': 'a', 'j': 'b'}[x])
+    return os.path.join('/tmp/seeded6', pid, {'k': 'a', 'l': 'b'}[x])
+
+
+def from_notes(path):
+    # round 6 deliveries describe themselves: first sentence of NOTES.md = the change, 'NEEDS:' paragraph = what it needs
+    change, need = '', ''
+    try:
+        lines = open(path).read().splitlines()
+    except OSError:
+        return ['', '']
+    for l in lines:
+        t = l.strip()
+        if t and not t.startswith('#') and not change:
+            change = t
+        if t.upper().startswith('NEEDS:'):
+            need = t[6:].strip()
+            break
+    if not change:
+        for l in lines:
+            if l.startswith('#'):
+                change = l.lstrip('# ').strip()
+                break
+    return [change[:300], need[:400]]
 
 
 def collect():
@@ -63,11 +87,13 @@ def collect():
                 shutil.copy(os.path.join(src, f), os.path.join(dst, f))
         meta_p = os.path.join(dst, 'meta.json')
         meta = json.load(open(meta_p)) if os.path.exists(meta_p) else {}
+        if key not in needs:
+            needs[key] = from_notes(os.path.join(src, 'NOTES.md'))
         meta.update({
             'id': key, 'breaks_property': pid,
             'change': needs.get(key, ['', ''])[0],
             'needs_to_manifest': needs.get(key, ['', ''])[1],
-            'author': 'independent sub-agent given only the property text and a scratch worktree (round %d)' % (1 if x in 'ab' else 2 if x in 'cd' else 3 if x in 'ef' else 4 if x in 'gh' else 5),
+            'author': 'independent sub-agent given only the property text and a scratch worktree (round %d)' % (1 if x in 'ab' else 2 if x in 'cd' else 3 if x in 'ef' else 4 if x in 'gh' else 5 if x in 'ij' else 6),
             'rebased_onto_repaired_tree': rebased,
         })
         json.dump(meta, open(meta_p, 'w'), indent=1)
